@@ -135,7 +135,7 @@ def periodic_mass(z):
 
 class PDB(Fmt):
     name = "pdb"
-    space = [("natom", [3, 1, 99, 100, 1000, 9999, 10000, 12000]), ("elements", ["OHH", "two-letter"]), ("coords", ["small", "negative", "touching"]), ("bonds", ["none", "few", "last-atoms"]),
+    space = [("natom", [3, 1, 99, 100, 1000, 9999, 10000, 12000]), ("elements", ["OHH", "two-letter"]), ("coords", ["small", "negative", "touching"]), ("bonds", ["last-atoms", "none", "few"]),
              ("names", ["element", "four-char"]), ("residues", ["default", "numbered-9999"]), ("occ_b", ["default", "varied", "touching"]), ("record", ["ATOM", "HETATM"]), T(1), ("end", [True, False])]
 
     def make(self, c, seed):
@@ -168,7 +168,7 @@ class MOL2(Fmt):
     name = "mol2"
     TYPES = ["1", "2", "3", "ar", "am", "du", "nc", "un"]
     CODE = {"1": 1, "2": 2, "3": 3, "ar": 4, "am": 9, "du": 10, "nc": 11, "un": 8}
-    space = [("natom", [3, 1, 100, 1000, 10000]), ("elements", ["OHH", "two-letter"]), ("coords", ["small", "negative", "touching"]), ("bonds", ["none", "few", "all-types", "120", "last-atoms"]),
+    space = [("natom", [3, 1, 100, 1000, 10000]), ("elements", ["OHH", "two-letter"]), ("coords", ["small", "negative", "touching"]), ("bonds", ["last-atoms", "none", "few", "all-types", "120"]),
              ("charges", [True, False]), ("attypes", ["element", "sybyl"]), T(2)]
 
     def make(self, c, seed):
@@ -192,7 +192,7 @@ class MOL2(Fmt):
 
 class SDF(Fmt):
     name = "sdf"
-    space = [("natom", [3, 1, 99, 100, 999]), ("elements", ["OHH", "two-letter"]), ("coords", ["small", "negative", "touching"]), ("bonds", ["none", "few", "99", "100", "120", "all-types", "last-atoms"]), T(3)]
+    space = [("natom", [3, 1, 99, 100, 999]), ("elements", ["OHH", "two-letter"]), ("coords", ["small", "negative", "touching"]), ("bonds", ["last-atoms", "none", "few", "99", "100", "120", "all-types"]), T(3)]
 
     def make(self, c, seed):
         n = c["natom"]
